@@ -21,7 +21,23 @@ class StmtMixin:
         if m is None:
             raise Unsupported('statement %s' % type(s).__name__)
         self.cur_line = getattr(s, 'lineno', None)
+        fsx = self.frame.fspec
+        if fsx is not None and fsx.hints and not self.spec_mode and not getattr(self, 'ghost_ok', False):
+            self.apply_hints(fsx, s)
         m(s)
+
+    def apply_hints(self, fsx, s):
+        '''Intermediate assertions of the contract (key `hints`): anchored on the text of the statement they
+        stand before, proved there as obligations of their own and only then used.  An anchor that no longer
+        occurs in the code just leaves the hint unused.'''
+        try:
+            txt = ast.unparse(s).split('\n')[0].strip()
+        except Exception:  # noqa
+            return
+        for h in fsx.hints:
+            if h['before'] == txt:
+                node = ast.parse(h['assert'].strip(), mode='eval').body
+                self.ob('hint', h['label'], truthy(self.spec_eval(node)), props=(), aux=True)
 
     def ex_Pass(self, s):
         pass
@@ -337,9 +353,10 @@ class StmtMixin:
 
     # ---------------------------------------------------------------- loops
     def loop_spec(self):
-        ordn = self.frame.loop_ord
-        self.frame.loop_ord += 1
-        fs = self.frame.fspec
+        owner = self.frame.loops_from or self.frame
+        ordn = owner.loop_ord
+        owner.loop_ord += 1
+        fs = owner.fspec
         ls = fs.loops.get(ordn) if fs is not None else None
         return ordn, ls
 
